@@ -463,7 +463,7 @@ func main() {
 		cs.Cookie = pickS(rr, []string{"myCookie", "mercureAuthorization", "c"}, 1, 4)
 		cs.Compat = pickS(rr, []string{"7", "7", "6", "8", "x"}, 1, 4)
 		cs.Transport = h.Pick(rr, []string{"local", "local", "bolt", "bolt", "url", "url", "default", "both"})
-		sizePool := []string{"0", "5", "100", "007", "9007199254740993", "18446744073709551615", "18446744073709551616", "-1", "1_0", "abc", "", "1e3", "+3", "3 "}
+		sizePool := []string{"0", "5", "100", "007", "010", "9007199254740993", "18446744073709551615", "18446744073709551616", "-1", "1_0", "abc", "", "1e3", "+3", "3 "}
 		freqPool := []string{"0", "1", "0.5", "0.3", "1e-1", ".5", "x", "", "0x1p-2", "1_0", "2"}
 		if !rr.Chance(1, 4) { // mostly well-formed
 			sizePool, freqPool = sizePool[:6], freqPool[:6]
